@@ -1,6 +1,7 @@
 package sim
 
 import (
+	"github.com/blinklabs-io/gouroboros/muxer"
 	"sort"
 	"strings"
 	"time"
@@ -147,4 +148,37 @@ func sortedU16(xs []uint16) []uint16 {
 	out := append([]uint16(nil), xs...)
 	sort.Slice(out, func(i, j int) bool { return out[i] < out[j] })
 	return out
+}
+
+// connKeepAlive keeps the 120 s read deadline of two connected real endpoints
+// quiet, as a live peer's keep-alive protocol would on a node-to-node
+// connection: one tiny frame every 40 s in each direction on a protocol id of
+// its own. Without it a conversation that stalls (the outcome some oracles
+// exist to report) would end in "read deadline expired" and count as
+// inconclusive. *stop ends the traffic.
+func connKeepAlive(stop *bool, client, server *ouroboros.Connection) {
+	cs, cr, cd := client.Muxer().RegisterProtocol(0x7001, muxer.ProtocolRoleInitiator)
+	ss, sr, sd := server.Muxer().RegisterProtocol(0x7001, muxer.ProtocolRoleResponder)
+	if cs == nil || ss == nil {
+		return
+	}
+	for _, rc := range []chan *muxer.Segment{cr, sr} {
+		rc := rc
+		go func() {
+			for range rc {
+			}
+		}()
+	}
+	pump := func(ch chan *muxer.Segment, done chan bool, resp bool) {
+		for !*stop {
+			select {
+			case ch <- muxer.NewSegment(0x7001, []byte{0}, resp):
+			case <-done:
+				return
+			}
+			sleep(40 * time.Second)
+		}
+	}
+	go pump(cs, cd, false)
+	go pump(ss, sd, true)
 }
